@@ -78,6 +78,11 @@ def _pair(seed, i, base):
     if a[0] != b[0]:
         ja, jb = json.loads(a[2]), json.loads(b[2])
         diff = [k for k in ja if ja[k] != jb[k]]
+        if "ops" in diff:
+            for k, (x, y) in enumerate(zip(ja["ops"], jb["ops"])):
+                if x != y:
+                    diff.append({"first_differing_op": k, "run1": x, "run2": y, "n_ops": [len(ja["ops"]), len(jb["ops"])]})
+                    break
     return i, a[0], b[0], a[1], diff
 
 
